@@ -1,6 +1,8 @@
 import FV.Proofs.Glb
 import FV.Proofs.GlbAlloc
 import FV.Proofs.GlbOpt
+import FV.Props.C02
+import FV.Props.C03
 /-
   C10 — Global floorplanning returns a feasible allocation and rigid hard modules.
 
@@ -29,6 +31,11 @@ import FV.Proofs.GlbOpt
   | `posted_constraints_imply_solverPost`,     | the point returned satisfies what `optimize_allocation` POSTED     |
   | `glbfloor_correct_posted`                  | (`FV/Model/GlbOpt.lean`: bounds, constants, capacity, hard-sum     |
   |                                            | rows) within `tolI`/`tolE`; non-convergence ⇒ raise (`solve=none`) |
+
+  | `glbfloor_correct_from_die`                | `SolverOK`; the start state is DERIVED (C01 valid die → C03        |
+  |                                            | `initial_allocation_is_glb_start` → `glbfloor_correct`)            |
+  | `WitnessFixed/WitnessHard.glbfloor_correct_applied` | applied instances (fixed module / flippable hard module,  |
+  |                                            | state-dependent solver, refine pass, `SolverOK` proved)            |
 
   The start-state hypotheses `hv`, `hin`, `hown` of `glbfloor_correct` are established for what
   `create_initial_allocation` returns on a valid die by `FV.C03.initial_allocation_is_glb_start`; `hfc` (centres of the
@@ -940,5 +947,288 @@ example : ((GlbOpt.post exInp).vars.all fun d =>
     (match d.2.2 with | some ub => decide (exSigma d.1 ≤ ub) | none => true)) = true := by decide +kernel
 
 end Examples
+
+/-! ### C10 ← C03 ← C01: `glbfloor` on the allocation `create_initial_allocation` returns for a valid die -/
+
+/-- **Composition with the start state.**  For a `ValidDie` document (C01), an accepted pick sequence and a compatible
+    netlist (hypotheses of `FV.C03.initial_allocation_is_glb_start`): the die model returns, and for whatever
+    `create_initial_allocation` returns on it, re-read by the allocation model, every Glb view `gmods` of the netlist
+    and every solver meeting `SolverOK`, every value the loop returns has all seven properties of `glbfloor_correct` —
+    the start-state hypotheses `hv`, `hin`, `hown`, `hfc` are discharged by C03, none is left. -/
+theorem glbfloor_correct_from_die (env : Alloc.Env α) (st : Alloc.Eps α) (hd : 0 ≤ st.dist) (ha : 0 ≤ st.area)
+    (sqrt : α → α) (stD : Option (α × α)) (doc : Die.YV α) (inp : Die.DieIn α)
+    (mods : List (InitAlloc.Module α)) (hp : Die.parseDie doc = .ok inp)
+    (hεd : 0 ≤ (Die.mkEps sqrt stD inp.W inp.H).1.d) (hεa : 0 ≤ (Die.mkEps sqrt stD inp.W inp.H).1.a)
+    (hvd : C01.ValidDie (Die.mkEps sqrt stD inp.W inp.H).1.d inp (InitAlloc.netFixedRects mods)) (picks : List Die.IRect)
+    (hacc : Die.coverAccept ((Die.gridOf (Die.mkEps sqrt stD inp.W inp.H).1 inp (InitAlloc.netFixedRects mods)).2.length - 1)
+      ((Die.gridOf (Die.mkEps sqrt stD inp.W inp.H).1 inp (InitAlloc.netFixedRects mods)).1.length - 1)
+      (Die.occ (Die.gridOf (Die.mkEps sqrt stD inp.W inp.H).1 inp (InitAlloc.netFixedRects mods)).1
+        (Die.gridOf (Die.mkEps sqrt stD inp.W inp.H).1 inp (InitAlloc.netFixedRects mods)).2
+        (Die.occRects inp (InitAlloc.netFixedRects mods))) picks = true)
+    (hn : InitAlloc.NetOK sqrt mods) (hrects : ∀ m ∈ mods, m.fixed = true → m.rects ≠ [])
+    (hid : ∀ m ∈ mods, Alloc.validIdent m.name = true) :
+    ∃ out, Die.dieModel sqrt stD doc (InitAlloc.netFixedRects mods) (some picks) =
+        .ok (out, (Die.mkEps sqrt stD inp.W inp.H).1, (Die.mkEps sqrt stD inp.W inp.H).2) ∧
+      ∀ (A : InitAlloc.Allocation α),
+        InitAlloc.createInitialAllocation sqrt st.area false mods (InitAlloc.refinableOf out) out.fixed = .ok A →
+        ∃ a, Alloc.mkAllocation env st ((A.cells.map InitAlloc.toAllocCell).map Alloc.Cell.toRaw) = .ok (a, st) ∧
+          ∀ gmods : List (Glb.Module α), InitAlloc.GlbModsOf mods gmods →
+          ∀ (solve : AState α → Option (Answer α)) (thr tol : α) (maxIter : Option Nat) (fuel : Nat) (r : AState α),
+            0 < thr → 0 ≤ tol → tol ≤ 1 - thr → maxIter ≠ some 0 →
+            SolverOK solve tol (Die.dieRect inp.W inp.H) ⟨a, st, gmods⟩ →
+            glbfloorA env solve thr maxIter fuel ⟨a, st, gmods⟩ = some r →
+            CellsFeasible (Die.dieRect inp.W inp.H) st.area r ∧
+            (∀ c ∈ r.alloc.cells, c.alloc ≠ [] ∧ ∀ p ∈ c.alloc, 0 ≤ p.2 ∧ p.2 ≤ 1) ∧
+            (∀ c ∈ r.alloc.cells, (c.alloc.map (·.2)).sum ≤ 1 + tol) ∧
+            (∀ m ∈ r.mods, InDie (Die.dieRect inp.W inp.H) m.cx m.cy) ∧
+            List.Forall₂ ModRel gmods r.mods ∧
+            (∀ m ∈ r.mods, m.hard = true → m.fixed = false → IsCentroid m.rects m.cx m.cy) ∧
+            (∀ f ∈ gmods, f.fixed = true →
+              f ∈ r.mods ∧ FixedOwn (r.alloc.cells.map ofCell) f ∧
+              ∀ c0 ∈ a.cells, c0.alloc = [(f.name, 1)] → c0.rect.fixed = true →
+                ∃ d ∈ r.alloc.cells, d.rect = c0.rect ∧ d.alloc = [(f.name, 1)]) := by
+  obtain ⟨out, hrun, hall⟩ := C03.initial_allocation_is_glb_start env st hd ha sqrt stD doc inp mods hp hεd hεa hvd picks
+    hacc hn hrects hid
+  refine ⟨out, hrun, fun A hA => ?_⟩
+  obtain ⟨a, hmk, _, hstart⟩ := hall A hA
+  refine ⟨a, hmk, fun gmods hg solve thr tol maxIter fuel r hthr htol0 htol hlim hsol hrun' => ?_⟩
+  obtain ⟨h1, h2, h3, h4⟩ := hstart gmods hg
+  exact glbfloor_correct env solve thr tol (Die.dieRect inp.W inp.H) maxIter fuel ⟨a, st, gmods⟩ r h1 h2 h3 h4
+    hthr htol0 htol hlim hsol hrun'
+
+/-! ### applied witnesses of `glbfloor_correct` (ported from audit 3) -/
+
+namespace WitnessFixed
+/-! a soft module + a FIXED module, a state-dependent solver that answers, a refine pass, `max_iter = 2`;
+    `SolverOK` is proved from the loop invariant and `glbfloor_correct` is applied. -/
+
+def die0 : Rect ℚ := ⟨2, 1, 4, 2, "_", false, false, .nopoly⟩
+def st0 : Eps ℚ := ⟨1/1000000, 1/1000⟩
+def wS : Glb.Module ℚ := ⟨"S", false, false, false, 1, 1, []⟩
+def wMods : List (Glb.Module ℚ) := [wS, exF]
+
+def aF (o : AState ℚ) (c : Nat) : ℚ := (getA (o.alloc.cells.map ofCell) exF c).getD 0
+def wAns (o : AState ℚ) : Answer ℚ where
+  a := fun n c => if n = "F" then aF o c else if n = "S" then (1 - aF o c) / 2 else 0
+  x := fun n => if n = "F" then 3 else 1
+  y := fun _ => 1
+def wSolve : AState ℚ → Option (Answer ℚ) := fun o => some (wAns o)
+
+def ownB (ra : RectAlloc ℚ) : Bool :=
+  ra.alloc == [("F", 1)] || ((ra.alloc.lookup "F").isNone && exF.rects.all fun r => ra.rect.areaOverlap r == 0)
+
+theorem mk_ok : ∃ a st, mkAllocation exEnvA st0 exRawA = .ok (a, st) ∧
+    (a.cells.all fun c => c.rect.isInside die0) = true ∧
+    ((a.cells.map ofCell).all ownB) = true ∧
+    (glbfloorA exEnvA wSolve (9/10) (some 2) 5 ⟨a, st, wMods⟩).isSome = true ∧
+    ((optimizeA exEnvA wSolve (9/10) ⟨a, st, wMods⟩).map (mustRefineA (9/10))) = some true := by
+  have h : (match mkAllocation exEnvA st0 exRawA with
+    | .ok (a, st) => (a.cells.all fun c => c.rect.isInside die0) && ((a.cells.map ofCell).all ownB) &&
+        (glbfloorA exEnvA wSolve (9/10) (some 2) 5 ⟨a, st, wMods⟩).isSome &&
+        (((optimizeA exEnvA wSolve (9/10) ⟨a, st, wMods⟩).map (mustRefineA (9/10))) == some true)
+    | .error _ => false) = true := by decide +kernel
+  cases hh : mkAllocation exEnvA st0 exRawA with
+  | error e => rw [hh] at h; cases h
+  | ok p =>
+    obtain ⟨a, st⟩ := p
+    rw [hh] at h
+    simp only [Bool.and_eq_true, beq_iff_eq] at h
+    exact ⟨a, st, rfl, h.1.1.1, h.1.1.2, h.1.2, h.2⟩
+
+theorem mods_of_inv (init o : AState ℚ) (hm : init.mods = wMods) (hinv : GlbInv die0 init o) :
+    ∃ m1, o.mods = [m1, exF] ∧ m1.name = "S" ∧ m1.fixed = false := by
+  have h := hinv.mods
+  have hF := (hinv.fixed exF (by rw [hm]; simp [wMods]) rfl).1
+  rw [hm] at h
+  unfold wMods at h
+  generalize o.mods = l at h hF
+  cases h with
+  | cons h1 h2 =>
+    cases h2 with
+    | cons h3 h4 =>
+      cases h4
+      rename_i m1 m2
+      simp only [List.mem_cons, List.not_mem_nil, or_false] at hF
+      rcases hF with e | e
+      · have := h1.1; rw [← e] at this; simp [exF, wS] at this
+      · subst e; exact ⟨_, rfl, h1.1, h1.2.2.1⟩
+
+theorem aF_cases (init o : AState ℚ) (hm : init.mods = wMods) (hinv : GlbInv die0 init o) (c : Nat) :
+    aF o c = 1 ∨ aF o c = 0 := by
+  have hown := (hinv.fixed exF (by rw [hm]; simp [wMods]) rfl).2.1
+  unfold aF
+  cases hg : getA (o.alloc.cells.map ofCell) exF c with
+  | none => right; rfl
+  | some v =>
+    rcases offeredFixed_of_fixedOwn _ _ hown c v hg with h | h
+    · left; simp [h]
+    · right; simp [h]
+
+theorem wSolverOK (init : AState ℚ) (hm : init.mods = wMods) : SolverOK wSolve 0 die0 init := by
+  intro o ans hinv hs
+  simp only [wSolve, Option.some.injEq] at hs
+  subst hs
+  obtain ⟨m1, ho, n1, f1⟩ := mods_of_inv init o hm hinv
+  have hc := aF_cases init o hm hinv
+  refine ⟨⟨?_, ?_, ?_⟩, ?_⟩
+  · intro m hmm c _
+    rw [ho] at hmm
+    simp only [List.mem_cons, List.not_mem_nil, or_false] at hmm
+    rcases hmm with rfl | rfl
+    · simp only [wAns, n1]
+      have e1 : ("S" = "F") = False := by decide
+      simp only [e1, if_false, if_true]
+      rcases hc c with h | h <;> rw [h] <;> norm_num
+    · simp only [wAns, exF, if_true]
+      rcases hc c with h | h <;> rw [h] <;> norm_num
+  · intro c _
+    rw [ho]
+    simp only [List.map_cons, List.map_nil, List.sum_cons, List.sum_nil, n1, wAns, exF]
+    have e1 : ("S" = "F") = False := by decide
+    simp only [e1, if_false, if_true]
+    rcases hc c with h | h <;> rw [h] <;> norm_num
+  · intro m hmm
+    unfold wAns InDie die0
+    simp only [Rect.xmin, Rect.xmax, Rect.ymin, Rect.ymax]
+    split_ifs <;> norm_num
+  · intro f hf hfx
+    rw [ho] at hf
+    simp only [List.mem_cons, List.not_mem_nil, or_false] at hf
+    rcases hf with rfl | rfl
+    · rw [f1] at hfx; cases hfx
+    · refine ⟨?_, ?_, ?_⟩
+      · intro c v hv
+        simp only [wAns, exF, if_true]
+        unfold aF
+        rw [hv]; rfl
+      · simp [wAns, exF]
+      · simp [wAns, exF]
+
+/-- `glbfloor_correct` applied: the loop returns on this instance and the returned value has all seven properties. -/
+theorem glbfloor_correct_applied : ∃ (init r : AState ℚ), glbfloorA exEnvA wSolve (9/10) (some 2) 5 init = some r ∧
+    CellsFeasible die0 init.eps.area r ∧ List.Forall₂ ModRel init.mods r.mods ∧
+    (exF ∈ r.mods ∧ FixedOwn (r.alloc.cells.map ofCell) exF) := by
+  obtain ⟨a, st, hmk, hin, hownb, hrun, href⟩ := mk_ok
+  have hv : ValidAlloc st a := FV.C02.constructor_valid exEnvA st0 exRawA a st
+    (by intro rc hrc; simp [exRawA] at hrc; rcases hrc with rfl | rfl <;> simp [RawPos])
+    (by intro _; simp [st0]) (by simp [exEnvA]) (by intro x; simp [exEnvA]) hmk
+  obtain ⟨r, hr⟩ := Option.isSome_iff_exists.mp hrun
+  have hin' : ∀ c ∈ (⟨a, st, wMods⟩ : AState ℚ).alloc.cells, c.rect.isInside die0 = true := by
+    simpa [List.all_eq_true] using hin
+  have hown : ∀ f ∈ (⟨a, st, wMods⟩ : AState ℚ).mods, f.fixed = true →
+      FixedOwn ((⟨a, st, wMods⟩ : AState ℚ).alloc.cells.map ofCell) f := by
+    intro f hf hfx
+    simp only [wMods, List.mem_cons, List.not_mem_nil, or_false] at hf
+    rcases hf with rfl | rfl
+    · simp [wS] at hfx
+    · intro ra hra
+      have := List.all_eq_true.mp hownb ra hra
+      unfold ownB at this
+      simp only [Bool.or_eq_true, Bool.and_eq_true, beq_iff_eq, Option.isNone_iff_eq_none, List.all_eq_true] at this
+      rcases this with h | ⟨h1, h2⟩
+      · left; simpa [exF] using h
+      · right; exact ⟨by simpa [exF] using h1, fun r hr => h2 r hr⟩
+  have hall := glbfloor_correct exEnvA wSolve (9/10) 0 die0 (some 2) 5 ⟨a, st, wMods⟩ r hv hin' hown
+    (by intro f hf hfx
+        simp only [wMods, List.mem_cons, List.not_mem_nil, or_false] at hf
+        rcases hf with rfl | rfl
+        · simp [wS] at hfx
+        · simp [InDie, die0, exF, Rect.xmin, Rect.xmax, Rect.ymin, Rect.ymax]; norm_num)
+    (by norm_num) (le_refl _) (by norm_num) (by simp) (wSolverOK _ rfl) hr
+  obtain ⟨c1, _, _, _, c5, _, c7⟩ := hall
+  have hF := c7 exF (by simp [wMods]) rfl
+  exact ⟨⟨a, st, wMods⟩, r, hr, c1, c5, hF.1, hF.2.1⟩
+
+end WitnessFixed
+
+namespace WitnessHard
+/-! a soft module + a flippable two-rectangle hard module, a refine pass, `max_iter = 2`. -/
+
+def die0 : Rect ℚ := ⟨2, 1, 4, 2, "_", false, false, .nopoly⟩
+def st0 : Eps ℚ := ⟨1/1000000, 1/1000⟩
+def wS : Glb.Module ℚ := ⟨"S", false, false, false, 1, 1, []⟩
+def wMods : List (Glb.Module ℚ) := [wS, exH]
+def wRaw : List (RawCell ℚ) :=
+  [⟨.obj ⟨1, 1, 2, 2, "_", false, false, .nopoly⟩, [("S", 1/2)], 0⟩,
+   ⟨.obj ⟨3, 1, 2, 2, "_", false, false, .nopoly⟩, [("H", 1/2)], 0⟩]
+def wSolve : AState ℚ → Option (Answer ℚ) := fun _ => some exAns
+
+theorem mk_ok : ∃ a st, mkAllocation exEnvA st0 wRaw = .ok (a, st) ∧
+    (a.cells.all fun c => c.rect.isInside die0) = true ∧
+    (glbfloorA exEnvA wSolve (9/10) (some 2) 5 ⟨a, st, wMods⟩).isSome = true ∧
+    ((optimizeA exEnvA wSolve (9/10) ⟨a, st, wMods⟩).map (mustRefineA (9/10))) = some true := by
+  have h : (match mkAllocation exEnvA st0 wRaw with
+    | .ok (a, st) => (a.cells.all fun c => c.rect.isInside die0) &&
+        (glbfloorA exEnvA wSolve (9/10) (some 2) 5 ⟨a, st, wMods⟩).isSome &&
+        (((optimizeA exEnvA wSolve (9/10) ⟨a, st, wMods⟩).map (mustRefineA (9/10))) == some true)
+    | .error _ => false) = true := by decide +kernel
+  cases hh : mkAllocation exEnvA st0 wRaw with
+  | error e => rw [hh] at h; cases h
+  | ok p =>
+    obtain ⟨a, st⟩ := p
+    rw [hh] at h
+    simp only [Bool.and_eq_true, beq_iff_eq] at h
+    exact ⟨a, st, rfl, h.1.1, h.1.2, h.2⟩
+
+theorem names_of_inv (init o : AState ℚ) (hm : init.mods = wMods) (h : List.Forall₂ ModRel init.mods o.mods) :
+    ∃ m1 m2, o.mods = [m1, m2] ∧ m1.name = "S" ∧ m2.name = "H" ∧ m1.fixed = false ∧ m2.fixed = false := by
+  rw [hm] at h
+  unfold wMods at h
+  generalize o.mods = l at h
+  cases h with
+  | cons h1 h2 =>
+    cases h2 with
+    | cons h3 h4 =>
+      cases h4
+      exact ⟨_, _, rfl, h1.1, h3.1, h1.2.2.1, h3.2.2.1⟩
+
+theorem wSolverOK (init : AState ℚ) (hm : init.mods = wMods) : SolverOK wSolve 0 die0 init := by
+  intro o ans hinv hs
+  simp only [wSolve, Option.some.injEq] at hs
+  subst hs
+  obtain ⟨m1, m2, ho, n1, n2, f1, f2⟩ := names_of_inv init o hm hinv.mods
+  refine ⟨⟨?_, ?_, ?_⟩, ?_⟩
+  · intro m _ c _
+    unfold exAns; simp only
+    split_ifs <;> norm_num
+  · intro c _
+    rw [ho]
+    simp only [List.map_cons, List.map_nil, List.sum_cons, List.sum_nil, n1, n2, exAns]
+    have e1 : ("S" = "F") = False := by decide
+    have e2 : ("H" = "F") = False := by decide
+    have e3 : ("H" = "S") = False := by decide
+    simp only [e1, e2, e3, if_false, if_true]
+    split_ifs <;> norm_num
+  · intro m _
+    unfold exAns InDie die0
+    simp only [Rect.xmin, Rect.xmax, Rect.ymin, Rect.ymax]
+    split_ifs <;> norm_num
+  · intro f hf hfx
+    rw [ho] at hf
+    simp only [List.mem_cons, List.not_mem_nil, or_false] at hf
+    rcases hf with rfl | rfl
+    · rw [f1] at hfx; cases hfx
+    · rw [f2] at hfx; cases hfx
+
+/-- `glbfloor_correct` applied: the flippable hard module of the returned netlist is a rigid image of the input one and
+    its reported centre is its centroid. -/
+theorem glbfloor_correct_applied : ∃ (init r : AState ℚ), glbfloorA exEnvA wSolve (9/10) (some 2) 5 init = some r ∧
+    CellsFeasible die0 init.eps.area r ∧ List.Forall₂ ModRel init.mods r.mods ∧
+    (∀ m ∈ r.mods, m.hard = true → m.fixed = false → IsCentroid m.rects m.cx m.cy) := by
+  obtain ⟨a, st, hmk, hin, hrun, href⟩ := mk_ok
+  have hv : ValidAlloc st a := FV.C02.constructor_valid exEnvA st0 wRaw a st
+    (by intro rc hrc; simp [wRaw] at hrc; rcases hrc with rfl | rfl <;> simp [RawPos])
+    (by intro _; simp [st0]) (by simp [exEnvA]) (by intro x; simp [exEnvA]) hmk
+  obtain ⟨r, hr⟩ := Option.isSome_iff_exists.mp hrun
+  have hin' : ∀ c ∈ (⟨a, st, wMods⟩ : AState ℚ).alloc.cells, c.rect.isInside die0 = true := by
+    simpa [List.all_eq_true] using hin
+  have hall := glbfloor_correct exEnvA wSolve (9/10) 0 die0 (some 2) 5 ⟨a, st, wMods⟩ r hv hin'
+    (by intro f hf hfx; simp [wMods, wS, exH] at hf; rcases hf with rfl | rfl <;> simp at hfx)
+    (by intro f hf hfx; simp [wMods, wS, exH] at hf; rcases hf with rfl | rfl <;> simp at hfx)
+    (by norm_num) (le_refl _) (by norm_num) (by simp) (wSolverOK _ rfl) hr
+  obtain ⟨c1, _, _, _, c5, c6, _⟩ := hall
+  exact ⟨⟨a, st, wMods⟩, r, hr, c1, c5, c6⟩
+
+end WitnessHard
 
 end FV.C10
